@@ -560,6 +560,29 @@ Definition sk_tucker_gen (N sweeps : nat) (modes : list nat) : cmd := seq [
     Alloc 23 4 ]);
   ListNew 25 [23; 24] ].
 
+(* ================================================================== the region reachable from the documented in-place arguments
+   (computed by the correspondence on the transmitted heap; Proofs/EffectsProofsReach.v: with the closure certificate
+   `region_closed` it is exactly the set `reach` of the in-place frame theorem) *)
+Definition children (h : heap) (o : nat) : list nat :=
+  match nth_error h o with
+  | Some (OCell it) => flat_map (fun r => match r with RNull => [] | RObj o' _ => [o'] end) it
+  | _ => []
+  end.
+Definition memb (x : nat) (l : list nat) : bool := existsb (Nat.eqb x) l.
+Fixpoint reach_set (fuel : nat) (h : heap) (cur : list nat) : list nat :=
+  match fuel with
+  | O => cur
+  | S f => reach_set f h (cur ++ filter (fun o => negb (memb o cur)) (flat_map (children h) cur))
+  end.
+Definition region_roots (args : list ref) (flags : list bool) : list nat :=
+  flat_map (fun p => match p with (RObj o _, true) => [o] | _ => [] end) (combine args flags).
+Definition inplace_region (h : heap) (args : list ref) (flags : list bool) : list nat :=
+  reach_set (length h) h (region_roots args flags).
+(* certificate: the computed set is closed under `children` (then it contains everything reachable) *)
+Definition region_closed (h : heap) (cur : list nat) : bool :=
+  forallb (fun o => forallb (fun c => memb c cur) (children h o)) cur.
+
+
 (* ================================================================== programs with choices (extracted skeletons)
    pcmd = cmd + nondeterministic choice (an `if` whose test is data dependent), bounded loops and calls whose bodies
    contain choices.  A pcmd DENOTES the list of its paths (every resolution of every choice, independently per loop
